@@ -16,6 +16,8 @@ requests and replies
   name <kind> <hexname>                    -> res=ok:<entry> | res=unknown | res=notexact                    must=<0|1>
   pre <flt 0|1> <caps> <fs names> <st names> <det names>
                                            -> res=ok|missing:<hex>|invalid:<sorted names>|badname fs=<sorted names> st=<sorted names> must=<0|1>
+  prer <shape n|r|v|rv> <flt> <caps> <fs names> <st names> <det names>   (scan roots: none | real dir | virtual FS | both)
+                                           -> same reply as pre, plus scan=<ok|prefail|noroot|other> of a real Scan over those roots
   pref <caps> <detector req> <required names>   (one hand-made detector, nothing else enabled)
                                            -> same reply as pre, must=0
   seq <kind> <l:req;req;… | n:names | c:caps> <caps;caps;…>   (one list filtered several times in a row)
@@ -127,6 +129,24 @@ def handle (line : String) : String :=
         | .missing e => s!"res=missing:{hexE e} fs=- st=- must={must}"
         | .invalid bad => s!"res=invalid:{joinWith "," (sortStrs (bad.map hexE))} fs=- st=- must={must}"
       | _, _, _ => "res=badname fs=- st=- must=0"
+    | _, _, _, _, _ => "bad-op"
+  -- the same check with scan roots of a given shape in the configuration, followed by a real Scan. SPECIFICATION: the outcome
+  -- of requirement validation is a function of (capabilities, plugin requirements) only; the scan-root shape plays no part —
+  -- except that, validation passed, a scan without any root stops with "no scan root specified"
+  | ["prer", shape, flt, c, fsn, stn, dn] =>
+    if shape ≠ "n" ∧ shape ≠ "r" ∧ shape ≠ "v" ∧ shape ≠ "rv" then "bad-op" else
+    match boolOf? flt, capsOf? c, namesOf? fsn, namesOf? stn, namesOf? dn with
+    | some flt, some c, some fsn, some stn, some dn =>
+      match fromNames fsNames fsn, fromNames stNames stn, fromNames detNames dn with
+      | .ok fs, .ok st, .ok dets =>
+        let f := fun (ps : List Plugin) => if flt then filterByCapabilities ps c else ps
+        let must := boolStr flt
+        let after := if shape = "n" then "noroot" else "ok"
+        match precheck fsNames stNames (f fs) (f st) (f dets) c with
+        | .ok fs' st' => s!"res=ok fs={namesStr fs'} st={namesStr st'} scan={after} must={must}"
+        | .missing e => s!"res=missing:{hexE e} fs=- st=- scan=prefail must={must}"
+        | .invalid bad => s!"res=invalid:{joinWith "," (sortStrs (bad.map hexE))} fs=- st=- scan=prefail must={must}"
+      | _, _, _ => "res=badname fs=- st=- scan=- must=0"
     | _, _, _, _, _ => "bad-op"
   | ["pref", c, dr, ns] =>
     match capsOf? c, capsOf? dr, namesOf? ns with
